@@ -132,6 +132,60 @@ with concurrent.futures.ThreadPoolExecutor(max_workers=nproc) as ex:
         for n in nonlin:
             v.report({"branch": "select.concurrent", "kind": "nonlinearizable", "detail": ""}, {"history": conc.history_of(path, n["h"]), "file": path},
                      what="connections in the same database disagree (history %s not linearizable over d<i>:<key>):\n  %s" % (n["h"], "\n  ".join(conc.history_of(path, n["h"])[:40])))
+# ---- cluster mode: whatever the node's configuration file says about databases, selection stays per connection and the
+# databases isolated (a cluster node normally has ONE database and rejects SELECT 1; if it accepts it, everything C20 says
+# must hold through the replicated path as well)
+import cluster
+clsel = {"runs": 0, "select_accepted": 0}
+for extra in ({}, {"Databases": 4}, {"Databases": 16}):
+    clu = cluster.Cluster(1, trace=False, extra_conf=extra).start_all()
+    try:
+        if clu.wait_serving(timeout=60) is None:
+            print("NOTE: single-node cluster did not start serving (skipped)")
+            continue
+        clsel["runs"] += 1
+        nd = clu.nodes[0]
+        A, B = nd.client(timeout=10.0), nd.client(timeout=10.0)
+        steps = []
+
+        def do(name, c, *argv):
+            r = c.cmd(*argv, timeout=10.0)
+            steps.append("%s: %s -> %r" % (name, " ".join(argv), r))
+            return r
+
+        do("B", B, "SET", "ck", "vb")
+        r0 = do("A", A, "SELECT", "0")
+        r1 = do("A", A, "SELECT", "1")
+        bad = None
+        if r0[0] != "+":
+            bad = "SELECT 0 is rejected"
+        elif r1[0] == "+":
+            clsel["select_accepted"] += 1
+            ga = do("A", A, "GET", "ck")
+            gb = do("B", B, "GET", "ck")
+            do("A", A, "SET", "ck", "va")
+            gb2 = do("B", B, "GET", "ck")
+            C = nd.client(timeout=10.0)
+            gc = do("C (new connection)", C, "GET", "ck")
+            C.close()
+            if ga != ("$", None):
+                bad = "after A selected database 1 it still sees database 0's key"
+            elif gb != ("$", b"vb") or gb2 != ("$", b"vb"):
+                bad = "A's SELECT 1 changed what connection B (which never selected) reads or A's write in database 1 is visible to B"
+            elif gc != ("$", b"vb"):
+                bad = "a new connection does not start in database 0"
+        else:
+            ga = do("A", A, "GET", "ck")
+            if ga != ("$", b"vb"):
+                bad = "a rejected SELECT changed the selection"
+        A.close()
+        B.close()
+        if bad:
+            v.report({"branch": "select.cluster", "kind": "selection-leak", "detail": json.dumps(extra)}, {"cluster_json_extra": extra, "steps": steps},
+                     what="cluster node started with %s in its cluster configuration: %s\n  %s" % (json.dumps(extra), bad, "\n  ".join(steps)))
+    finally:
+        clu.shutdown()
+cov["cluster_mode_select"] = clsel
 cov["traces_validated_against_impl"] += cov["concurrent"]["histories"]
 cov["samples"].append({"kind": "B1 edge", "example": "after c1: SELECT 1, c2: SET k a must write database 0 (c2 never selected)"})
 v.finish(tier, "model_checking", cov, ["spec/Select.tla over Keyspace.Exec for the data commands", "databases in {1, 2, 16}; 2 connections in B1",
